@@ -144,3 +144,34 @@ Proof. exact example2_ok. Qed.
 
 Example C10_inv2_nonvacuous : HdrInv x2app_init 0 /\ Inv2 x2app_init x2app_init (x2it_init 0).
 Proof. split; [exact HdrInv_init|]. apply (Inv2_init x2app_init). cbn. lia. Qed.
+
+(* ============================ Next / Seek ================================================== *)
+(* [spec_script] (model/Xor.v) is the abstract cursor over the appended samples: Next moves to the
+   next sample; Seek t stays on the current sample if its timestamp is >= t (idempotent), else
+   moves to the first sample ahead with timestamp >= t, else reports ValNone standing on the
+   last sample.  The iterator over the encoded bytes follows it for every script. *)
+Theorem C10_xor_seek : forall segs acts,
+  all_obj segs -> Forall wf_sample (flat_map snd segs) ->
+  Z.of_nat (length (flat_map snd segs)) <= 65535 ->
+  exists num bs, xor_encode segs = EOk num [] bs /\
+    xor_run_script (chunk_bytes num [] bs) acts = Some (spec_script None (map st0 (flat_map snd segs)) acts).
+Proof. exact xor_seek_script. Qed.
+
+Theorem C10_xor2_seek : forall segs acts,
+  Forall wf_sample2 (flat_map snd segs) -> Z.of_nat (length (flat_map snd segs)) <= 65535 ->
+  exists num hdr bs, xor2_encode segs = EOk num [hdr] bs /\
+    xor2_run_script (chunk_bytes num [hdr] bs) acts = Some (spec_script None (flat_map snd segs) acts).
+Proof. exact xor2_seek_script. Qed.
+
+(* what a successful / failing forward Seek of the cursor means: it lands on the FIRST sample ahead
+   whose timestamp is >= t (everything skipped is < t); it fails only if every sample ahead is < t *)
+Theorem C10_seek_first_at_or_after : forall t rest cur c' rest',
+  (seek_rest t cur rest = (c', rest', true) ->
+     exists pre x, c' = Some x /\ rest = pre ++ x :: rest' /\ Forall (fun y => s_t y < t) pre /\ t <= s_t x) /\
+  (seek_rest t cur rest = (c', rest', false) -> rest' = [] /\ Forall (fun y => s_t y < t) rest).
+Proof. intros. split; [apply seek_rest_found|apply seek_rest_none]. Qed.
+
+Example C10_seek_nonvacuous :
+  spec_script None [mkS 0 10 1; mkS 0 20 2; mkS 0 30 3] [ASeek 15; ASeek 5; ANext; ASeek 31; ASeek 30]
+  = [Some (mkS 0 20 2); Some (mkS 0 20 2); Some (mkS 0 30 3); None; Some (mkS 0 30 3)].
+Proof. reflexivity. Qed.
